@@ -13,3 +13,9 @@ open Pcore.Heap
 #print axioms C08_cache_coherent
 #print axioms C08_stale_cache_breaks
 #print axioms C08_pointer_stable
+open Pcore.Immut
+#print axioms C08_field_writes_safe
+#print axioms C08_resolve_frame
+#print axioms C08_resolve_history_free
+#print axioms C08_resolve_impl
+#print axioms C08_resolve_memo_breaks
